@@ -252,7 +252,19 @@ static int new_packet(int sk_fd, int timer_fd)
     if (res < 0)
         return -1;
 
+    /* The NAL unit (length taken from the packet) must fit the queue entry
+     * and lie inside the received packet.
+     */
+    if (Avtp_Cvf_GetStreamDataLength(cvf) < AVTP_H264_HEADER_LEN) {
+        fprintf(stderr, "Dropping packet: no H.264 header\n");
+        return 0;
+    }
     h264_data_len = get_h264_data_len(cvf);
+    if (h264_data_len > DATA_LEN ||
+        (size_t)n < AVTP_FULL_HEADER_LEN + h264_data_len) {
+        fprintf(stderr, "Dropping packet: invalid data length\n");
+        return 0;
+    }
 
     res = schedule_nal(timer_fd, &tspec, h264Payload, h264_data_len);
     if (res < 0)
